@@ -75,6 +75,8 @@ fn step_str(s: &Step) -> String {
         Step::FinalC40ImplicitAscii(m, n) => format!("FinalC40ImplicitAscii:{}:{}", mode_name(*m), n),
         Step::FinalX12Exact(n) => format!("FinalX12Exact:X12:{}", n),
         Step::FinalX12ImplicitAscii(n) => format!("FinalX12ImplicitAscii:X12:{}", n),
+        Step::FinalC40ImplicitPair(m, n) => format!("FinalC40ImplicitPair:{}:{}", mode_name(*m), n),
+        Step::FinalX12ImplicitPair(n) => format!("FinalX12ImplicitPair:X12:{}", n),
         Step::FinalEdifactExact(n) => format!("FinalEdifactExact:Edifact:{}", n),
         Step::FinalEdifactAscii(n, t) => format!("FinalEdifactAscii:Edifact:{}:{}", n, t),
         Step::FinalBase256ToEnd(n) => format!("FinalBase256ToEnd:Base256:{}", n),
@@ -95,6 +97,8 @@ fn step_from(s: &str) -> Option<Step> {
         "FinalC40ImplicitAscii" => Step::FinalC40ImplicitAscii(mode_from(p[1])?, n(2)?),
         "FinalX12Exact" => Step::FinalX12Exact(n(2)?),
         "FinalX12ImplicitAscii" => Step::FinalX12ImplicitAscii(n(2)?),
+        "FinalC40ImplicitPair" => Step::FinalC40ImplicitPair(mode_from(p[1])?, n(2)?),
+        "FinalX12ImplicitPair" => Step::FinalX12ImplicitPair(n(2)?),
         "FinalEdifactExact" => Step::FinalEdifactExact(n(2)?),
         "FinalEdifactAscii" => Step::FinalEdifactAscii(n(2)?, n(3)?),
         "FinalBase256ToEnd" => Step::FinalBase256ToEnd(n(2)?),
@@ -205,7 +209,8 @@ pub fn check(c: &ScriptCase) -> Verdict {
                 *m
             }
             Step::FinalC40Exact(m, _) | Step::FinalC40Pad(m, _) | Step::FinalC40UnlatchAscii(m, _) | Step::FinalC40ImplicitAscii(m, _) => *m,
-            Step::FinalX12Exact(_) | Step::FinalX12ImplicitAscii(_) => Mode::X12,
+            Step::FinalC40ImplicitPair(m, _) => *m,
+            Step::FinalX12Exact(_) | Step::FinalX12ImplicitAscii(_) | Step::FinalX12ImplicitPair(_) => Mode::X12,
             Step::FinalEdifactExact(_) | Step::FinalEdifactAscii(..) => Mode::Edifact,
             Step::FinalBase256ToEnd(n) => {
                 if *n >= 250 {
@@ -410,6 +415,13 @@ fn build(segs: Vec<SegRaw>, fin: u16, fin_seg: SegRaw, header: Header, cap_sel: 
                     len_cw += 1 + 2 * (v / 3) + 2;
                     steps.push(Step::FinalC40UnlatchAscii(m, chars.len()));
                 }
+                _ if s.seeds[18] % 3 == 0 => {
+                    // the one ASCII codeword is a digit pair
+                    chars.push(b'0' + s.seeds[21] % 10);
+                    chars.push(b'0' + s.seeds[22] % 10);
+                    len_cw += 1 + 2 * (v / 3) + 1;
+                    steps.push(Step::FinalC40ImplicitPair(m, chars.len()));
+                }
                 _ => {
                     chars.push(low7(cs, s.seeds[21]));
                     len_cw += 1 + 2 * (v / 3) + 1;
@@ -425,6 +437,11 @@ fn build(segs: Vec<SegRaw>, fin: u16, fin_seg: SegRaw, header: Header, cap_sel: 
             if f == 10 {
                 len_cw += 1 + 2 * (n / 3);
                 steps.push(Step::FinalX12Exact(n));
+            } else if s.seeds[18] % 3 == 0 {
+                chars.push(b'0' + s.seeds[21] % 10);
+                chars.push(b'0' + s.seeds[22] % 10);
+                len_cw += 1 + 2 * (n / 3) + 1;
+                steps.push(Step::FinalX12ImplicitPair(n + 2));
             } else {
                 chars.push(low7(cs, s.seeds[22]));
                 len_cw += 1 + 2 * (n / 3) + 1;
